@@ -25,7 +25,6 @@ build_check() { # $1 = id (C05) -> bin path on stdout
   pkg="./checks/$(lower "$id")"
   bin="$ROOT/.bin/$(lower "$id").test"
   mkdir -p "$ROOT/.bin"
-  cp /repo/go.sum "$H/go.sum.repo" 2>/dev/null || true
   ( cd "$H" && $GO test -c -race -tags verif -vet=off -o "$bin" "$pkg" ) >&2 || return 1
   echo "$bin"
 }
@@ -34,7 +33,6 @@ cmd="${1:-}"
 case "$cmd" in
   setup)
     mkdir -p "$ROOT/.bin" "$ROOT/evidence" "$ROOT/artifacts"
-    ( cd "$H" && $GO build -o "$ROOT/.bin/gofail" go.etcd.io/gofail ) || echo "gofail build failed (C10 failpoint cases will be skipped)" >&2
     rc=0
     for d in "$H"/checks/*/; do
       id="$(basename "$d")"
